@@ -405,7 +405,7 @@ func runProp(id, tier, only string) int {
 	for i, v := range m.viol {
 		if kf := matchKnown(known, p.ID, v.Sig); kf != nil {
 			if !printedKnown[kf.Sig] {
-				fmt.Printf("KNOWN-FINDING: property=%s %s\n", p.ID, kf.What)
+				fmt.Printf("KNOWN-FINDING: property=%s [%s] %s\n", p.ID, kf.Sig, kf.What)
 				printedKnown[kf.Sig] = true
 			}
 			continue
